@@ -226,6 +226,7 @@ pub enum ReplaySpec {
     Tape { phase: String, tape: Vec<u8> },
     Index { phase: String, index: u64 },
     Probe { name: String },
+    Fuzz { target: String, input: Vec<u8> },
 }
 
 pub struct Runner {
@@ -307,6 +308,20 @@ fn mix(seed: u64, phase: &str, worker: u64) -> [u8; 32] {
     out
 }
 
+/// deterministic pseudo-random tape for building fuzz seed inputs (a function of VERIF_SEED, a label and an index)
+pub fn seed_tape(seed: u64, label: &str, index: u64, len: usize) -> Vec<u8> {
+    let mut out = Vec::with_capacity(len + 8);
+    let mut k = 0u64;
+    while out.len() < len {
+        let mut h = std::collections::hash_map::DefaultHasher::new();
+        (seed, label, index, k, 0x7a9e_u64).hash(&mut h);
+        out.extend_from_slice(&h.finish().to_le_bytes());
+        k += 1;
+    }
+    out.truncate(len);
+    out
+}
+
 fn sanitize(s: &str) -> String {
     s.chars().map(|c| if c.is_ascii_alphanumeric() || c == '-' || c == '_' { c } else { '_' }).take(60).collect()
 }
@@ -357,6 +372,22 @@ impl Runner {
         self.open.contains(sig)
     }
 
+    /// run a generator on a deterministic tape (fuzz seed inputs); nothing is recorded
+    pub fn seed_case<R>(&self, label: &str, index: u64, len: usize, f: impl FnOnce(&mut Case<'_>) -> R) -> R {
+        let tape = seed_tape(self.seed, label, index, len);
+        let open = HashSet::new();
+        let mut case = Case::new(&tape, &open, false, self.tier, false, index);
+        f(&mut case)
+    }
+
+    /// executions per libFuzzer job (only VERIF_SCALE applies)
+    pub fn fuzz_runs(&self, n: u64) -> u64 {
+        match std::env::var("VERIF_SCALE").ok().and_then(|s| s.parse::<f64>().ok()) {
+            Some(f) => ((n as f64) * f).max(1000.0) as u64,
+            None => n,
+        }
+    }
+
     pub fn note(&mut self, s: impl Into<String>) {
         let s = s.into();
         println!("note: {s}");
@@ -385,6 +416,7 @@ impl Runner {
                 let p = match spec {
                     ReplaySpec::Tape { phase, .. } | ReplaySpec::Index { phase, .. } => phase,
                     ReplaySpec::Probe { name } => name,
+                    ReplaySpec::Fuzz { target, .. } => target,
                 };
                 if p == phase {
                     self.replay_ran = true;
@@ -636,6 +668,176 @@ impl Runner {
         }
     }
 
+    /// Coverage-guided stage: build the libFuzzer target `target` of /verif/harness/fuzz against /repo's current tree,
+    /// seed one fresh corpus per job with `seeds`, run `jobs` independent campaigns of `runs` executions each
+    /// (seed = f(VERIF_SEED, job)), and turn every crash artifact into a violation (or a known hit).  The oracle is
+    /// inside the target; open findings are tolerated there.  Hangs / OOMs / build failures are harness errors (exit 2).
+    pub fn fuzz(&mut self, target: &str, runs: u64, max_len: usize, seeds: &[Vec<u8>]) {
+        use std::process::{Command, Stdio};
+        let phase = format!("fuzz:{target}");
+        if self.quick() && self.replay.is_none() {
+            return;
+        }
+        let replay_input = match self.replay_wants(&phase) {
+            Some(None) => return,
+            Some(Some(ReplaySpec::Fuzz { input, .. })) => Some(input),
+            Some(Some(_)) => return,
+            None => None,
+        };
+        let t0 = Instant::now();
+        let hdir = format!("{VERIF_DIR}/harness");
+        let log_path = format!("{hdir}/target/fuzz-build-{target}.log");
+        let _ = std::fs::create_dir_all(format!("{hdir}/target"));
+        let build = Command::new("cargo")
+            .args(["+nightly", "fuzz", "build", target])
+            .current_dir(&hdir)
+            .env("CARGO_NET_OFFLINE", "true")
+            .env_remove("RUSTFLAGS")
+            .stdin(Stdio::null())
+            .output();
+        match build {
+            Ok(o) if o.status.success() => {}
+            Ok(o) => {
+                let _ = std::fs::write(&log_path, [o.stdout, o.stderr].concat());
+                self.harness_error(format!("cargo fuzz build {target} failed (log: {log_path})"));
+                return;
+            }
+            Err(e) => {
+                self.harness_error(format!("cargo fuzz build {target}: {e}"));
+                return;
+            }
+        }
+        let bin = format!("{hdir}/fuzz/target/x86_64-unknown-linux-gnu/release/{target}");
+        let work = format!("{hdir}/target/fuzz-work/{}-{target}", self.id);
+        let _ = std::fs::remove_dir_all(&work);
+        let art = format!("{work}/artifacts");
+        std::fs::create_dir_all(&art).expect("fuzz work dir");
+        // classify one input by running it alone
+        let classify = |path: &str, strict: bool| -> Option<(String, String)> {
+            let mut cmd = Command::new(&bin);
+            cmd.arg(path).arg("-timeout=60").stdin(Stdio::null());
+            if strict {
+                cmd.env("VERIF_FUZZ_STRICT", "1");
+            }
+            let o = cmd.output().ok()?;
+            if o.status.success() {
+                return None;
+            }
+            let err = String::from_utf8_lossy(&o.stderr).into_owned();
+            Some(parse_fuzz_failure(&err))
+        };
+        if let Some(input) = replay_input {
+            let f = format!("{work}/replay-input");
+            std::fs::write(&f, &input).expect("write replay input");
+            match classify(&f, true) {
+                Some((sig, msg)) => {
+                    println!("replay: case fails: {sig}: {}", truncate(&msg, 800));
+                    self.add_violation(sig, msg, json!({"kind": "fuzz", "phase": phase, "target": target, "input_hex": hex::encode(&input)}));
+                }
+                None => println!("replay: case passes"),
+            }
+            self.stats.evaluations += 1;
+            return;
+        }
+        let jobs = self.workers.max(1);
+        let mut children = Vec::new();
+        for j in 0..jobs {
+            let corpus = format!("{work}/corpus-{j}");
+            std::fs::create_dir_all(&corpus).expect("corpus dir");
+            for (i, s) in seeds.iter().enumerate() {
+                let _ = std::fs::write(format!("{corpus}/seed-{i:05}"), s);
+            }
+            let mut h = std::collections::hash_map::DefaultHasher::new();
+            (self.seed, target, j as u64, 0xf022_u64).hash(&mut h);
+            let seed = (h.finish() % 0xffff_fffe) + 1; // 0 would mean "random"
+            let child = Command::new(&bin)
+                .arg(&corpus)
+                .args([format!("-runs={runs}"), format!("-seed={seed}"), format!("-max_len={max_len}"), "-len_control=0".into(), format!("-artifact_prefix={art}/j{j}-"), "-timeout=60".into(), "-rss_limit_mb=6144".into(), "-print_final_stats=1".into(), "-verbosity=0".into()])
+                .env("VERIF_FUZZ_STATS", format!("{work}/stats-{j}.json"))
+                .stdin(Stdio::null())
+                .stdout(Stdio::null())
+                .stderr(Stdio::piped())
+                .spawn();
+            match child {
+                Ok(c) => children.push((j, c)),
+                Err(e) => {
+                    self.harness_error(format!("spawn {bin}: {e}"));
+                    return;
+                }
+            }
+        }
+        let mut executed = 0u64;
+        let mut new_units = 0u64;
+        let mut failed_jobs = 0u64;
+        for (_j, c) in children {
+            let Ok(o) = c.wait_with_output() else { continue };
+            let err = String::from_utf8_lossy(&o.stderr);
+            for l in err.lines() {
+                if let Some(v) = l.strip_prefix("stat::number_of_executed_units:") {
+                    executed += v.trim().parse::<u64>().unwrap_or(0);
+                }
+                if let Some(v) = l.strip_prefix("stat::new_units_added:") {
+                    new_units += v.trim().parse::<u64>().unwrap_or(0);
+                }
+            }
+            if !o.status.success() {
+                failed_jobs += 1;
+            }
+        }
+        // target-side counters (written at exit by the target)
+        let mut counters: BTreeMap<String, u64> = BTreeMap::new();
+        for j in 0..jobs {
+            if let Ok(t) = std::fs::read_to_string(format!("{work}/stats-{j}.json")) {
+                if let Ok(Value::Object(m)) = serde_json::from_str::<Value>(&t) {
+                    for (k, v) in m {
+                        *counters.entry(k).or_default() += v.as_u64().unwrap_or(0);
+                    }
+                }
+            }
+        }
+        // artifacts
+        let mut arts: Vec<PathBuf> = std::fs::read_dir(&art).map(|d| d.filter_map(|e| e.ok().map(|e| e.path())).collect()).unwrap_or_default();
+        arts.sort();
+        let mut inconclusive = 0;
+        for a in &arts {
+            let name = a.file_name().and_then(|n| n.to_str()).unwrap_or("").to_owned();
+            if name.contains("timeout-") || name.contains("oom-") || name.contains("slow-unit-") {
+                inconclusive += 1;
+                continue;
+            }
+            let Some((sig, msg)) = classify(&a.to_string_lossy(), false) else { continue };
+            if self.open.contains(&sig) {
+                *self.stats.known_hits.entry(sig).or_default() += 1;
+                continue;
+            }
+            if self.violations.iter().any(|v| v.sig == sig) {
+                continue;
+            }
+            // libFuzzer's own minimiser accepts any crash: keep its result only if the signature is unchanged
+            let min = format!("{work}/min-{name}");
+            let _ = Command::new(&bin).args(["-minimize_crash=1", "-runs=20000", "-max_total_time=30", &format!("-exact_artifact_path={min}")]).arg(a).stdin(Stdio::null()).stdout(Stdio::null()).stderr(Stdio::null()).status();
+            let input = match classify(&min, false) {
+                Some((s2, _)) if s2 == sig => std::fs::read(&min).unwrap_or_default(),
+                _ => std::fs::read(a).unwrap_or_default(),
+            };
+            self.add_violation(sig, msg, json!({"kind": "fuzz", "phase": phase, "target": target, "input_hex": hex::encode(&input), "input_lossy": truncate(&String::from_utf8_lossy(&input), 400)}));
+        }
+        if inconclusive > 0 {
+            self.harness_error(format!("{phase}: {inconclusive} timeout/oom artifact(s) under {art}: inconclusive"));
+        }
+        if failed_jobs > 0 && arts.is_empty() {
+            self.harness_error(format!("{phase}: {failed_jobs} job(s) failed without an artifact"));
+        }
+        self.stats.evaluations += executed;
+        for (k, v) in &counters {
+            *self.stats.labels.entry(format!("{phase}:{k}")).or_default() += v;
+        }
+        self.phases.push(json!({"phase": phase, "kind": "libfuzzer", "jobs": jobs, "runs_per_job": runs, "max_len": max_len, "seed_inputs": seeds.len(), "executed_units": executed, "new_units_added": new_units, "target_counters": counters, "artifacts": arts.len(), "wall_s": t0.elapsed().as_secs_f64()}));
+        if self.violations.is_empty() {
+            let _ = std::fs::remove_dir_all(&work);
+        }
+    }
+
     /// finish: print lines, write replay files and evidence, return the exit code
     pub fn finish(mut self) -> i32 {
         if let Some(spec) = &self.replay {
@@ -663,6 +865,12 @@ impl Runner {
         let mut exit = 0;
         let _ = std::fs::create_dir_all(format!("{VERIF_DIR}/replays"));
         for v in &self.violations {
+            if v.sig.starts_with("harness-error:") {
+                // an explicit self-check of the harness failed (signer vs reference verifier, rewrite not equivalent): inconclusive
+                println!("HARNESS-ERROR: {}: {} (replay data: {})", v.sig, truncate(&v.msg, 600), truncate(&v.replay.to_string(), 400));
+                exit = exit.max(2);
+                continue;
+            }
             let mut h = std::collections::hash_map::DefaultHasher::new();
             v.replay.to_string().hash(&mut h);
             let path = PathBuf::from(format!("{VERIF_DIR}/replays/{}-{}-{:08x}.json", self.id, sanitize(&v.sig), h.finish() as u32));
@@ -733,6 +941,29 @@ impl Runner {
         let path = format!("{VERIF_DIR}/evidence/{}.json", self.id);
         std::fs::write(&path, serde_json::to_string_pretty(&ev).unwrap()).expect("write evidence");
     }
+}
+
+/// (signature, message) of a crashed libFuzzer run, from its stderr
+fn parse_fuzz_failure(err: &str) -> (String, String) {
+    if let Some(i) = err.find("VIOLATION ") {
+        let line = err[i..].lines().next().unwrap_or("");
+        let mut it = line.splitn(4, ' ');
+        let (_, _id, sig) = (it.next(), it.next(), it.next().unwrap_or("unknown"));
+        let msg = err[i..].split("\nnote: run with").next().unwrap_or(line);
+        return (sig.to_owned(), truncate(msg, 2000));
+    }
+    if let Some(i) = err.find("panicked at ") {
+        let rest = &err[i + 12..];
+        let loc = rest.split(':').next().unwrap_or("");
+        let file = loc.rsplit('/').next().unwrap_or("").to_owned();
+        let in_harness = loc.contains("fuzz_targets/") || loc.starts_with("src/") || loc.contains("/verif/harness/");
+        let sig = if in_harness { format!("harness-panic:{file}") } else { format!("panic:{file}") };
+        return (sig, truncate(&err[i..], 1500));
+    }
+    if err.contains("ERROR: libFuzzer: timeout") {
+        return ("harness-error:timeout".into(), truncate(err, 600));
+    }
+    ("crash:unclassified".into(), truncate(err, 1500))
 }
 
 pub fn truncate(s: &str, n: usize) -> String {
